@@ -91,6 +91,9 @@ func storeJSON(api string, opt *JSONCfg, test string, doc, form string) (string,
 	if api == "sjson" {
 		spec.Filename = ""
 	}
+	if opt == nil && len(doc)%3 == 0 {
+		spec.Filename, spec.PkgLevel = "", true // the package-level MatchJSON / MatchStandaloneJSON
+	}
 	ft := newFakeT(test)
 	call := Call{API: api, Doc: BS(doc), Form: form}
 	r := call.invoke(spec.build(root), ft)
